@@ -1,9 +1,9 @@
 package rules
 
 import (
-	"go/types"
 	"fmt"
 	"go/token"
+	"go/types"
 	"strings"
 
 	"golang.org/x/tools/go/ssa"
@@ -18,6 +18,7 @@ func init() {
 			"R10.2 the entry's TargetState is stored from the requested target on every iteration; " +
 			"R10.3 who may write ScrapeTimes: only the reset to 0 (C05 R5.4) and the +1 in the proxy's completion (C13 R13.2); " +
 			"R10.4 who may write IdleAt: a non-nil value only under len(Status)==0 ∧ IdleAt==nil, nil only under len(Status)!=0, the idle update runs after the status rebuild in UpdateTargets, and the runtime-info endpoint reports IdleAt unchanged in an object built by the reporting call itself (no cached report). " +
+			"R10.5 who may write ScrapeStatus.Series/TotalSeries: only the constructor and the scrape-result update of pkg/target (a kept entry keeps its measurements). " +
 			"Not decided: values over update sequences (a reference-model comparison is a dynamic technique).",
 		Assumptions: []string{"go/types and go/ssa are correct"}})
 }
@@ -41,6 +42,7 @@ func runC10(p *engine.Prog, r *engine.Report) {
 		return
 	}
 	r.Min("R10.1-status-rebuild", 2)
+	r.Min("R10.5-statistics-writers", 1)
 	r.Min("R10.2-state-from-request", 1)
 	r.Min("R10.3-scrape-counter-writers", 1)
 	r.Min("R10.4-idle-since", 4)
@@ -288,6 +290,9 @@ func runC10(p *engine.Prog, r *engine.Report) {
 	}
 	r.Check(okW && len(writers) == 2, "R10.3-scrape-counter-writers", "writers of ScrapeStatus.ScrapeTimes", "program-wide who-may-write table", "exactly: the reset to 0 in the status rebuild and the +1 in the proxy completion", strings.Join(writers, "; "))
 
+	// ---- R10.5 who may write the measured statistics of a status entry
+	checkStatisticsWriters(p, r, "R10.5-statistics-writers")
+
 	// ---- R10.4 IdleAt
 	nI := 0
 	for _, fn := range p.Funcs {
@@ -487,3 +492,32 @@ func extraGuards(fi *engine.FuncInfo, b *ssa.BasicBlock, allowed []string) []str
 }
 
 func controlsC10(p *engine.Prog) []Control { return nil }
+
+// checkStatisticsWriters: program-wide who-may-write table of ScrapeStatus.Series / TotalSeries. Only the constructor
+// (initial estimate) and the scrape-result update of pkg/target write them, so an entry that is kept across updates,
+// transfers and failed scrapes keeps what was measured last.
+func checkStatisticsWriters(p *engine.Prog, r *engine.Report, rule string) {
+	fSer := p.Field(pkgTarget, "ScrapeStatus", "Series")
+	fTot := p.Field(pkgTarget, "ScrapeStatus", "TotalSeries")
+	allowed := map[string]bool{"NewScrapeStatus": true, "UpdateScrapeResult": true}
+	var sw, bad []string
+	for _, fn := range p.Funcs {
+		for _, in := range allInstrs(fn) {
+			st, ok := in.(*ssa.Store)
+			if !ok {
+				continue
+			}
+			fa, ok := st.Addr.(*ssa.FieldAddr)
+			if !ok || (engine.FieldOf(fa) != fSer && engine.FieldOf(fa) != fTot) {
+				continue
+			}
+			w := engine.FieldOf(fa).Name() + " in " + engine.FuncName(fn) + " (" + p.Rel(st.Pos()) + ")"
+			sw = append(sw, w)
+			if !(engine.InPkg(fn, pkgTarget) && allowed[fn.Name()]) {
+				bad = append(bad, w)
+			}
+		}
+	}
+	r.Check(len(bad) == 0 && len(sw) >= 2, rule, "writers of ScrapeStatus.Series/TotalSeries", "program-wide who-may-write table",
+		"only the constructor (initial estimate) and the scrape-result update write them: an entry kept across updates and failed scrapes keeps what was measured", strings.Join(append(bad, fmt.Sprintf("%d writers", len(sw))), "; "))
+}
